@@ -323,7 +323,7 @@ def log(*a):
 def read_sim_traces(directory, prefix="tr"):
     """parse the behaviour files written by `tlc -simulate file=<dir>/<prefix>,num=N`;
     yields lists of (action, state dict)"""
-    hdr = re.compile(r"^\\\* <(\w+) line")
+    hdr = re.compile(r"^\\\* <(\w+)(?:\([^>]*\))? line")
     for fn in sorted(os.listdir(directory)):
         if not fn.startswith(prefix + "_"):
             continue
